@@ -25,7 +25,8 @@ CHECKS = {
         "Datagroup mixing Arrays and Vectors of four dtypes are compared after every step with a numpy model "
         "(every member and component must equal model[index]); exploration bounded to <=12 ops, <=12 rows.",
         "Trusted: numpy indexing semantics. Ties in sortby accepted in any order (sortedness + permutation + row "
-        "integrity asserted). Not covered: groups of 2-d members, histories longer than the bound.",
+        "integrity asserted), out-of-range indices and the dtype of selected members are not judged. Not covered: groups "
+        "whose members are 2-d (2-d values only appear as mis-shaped insertions), histories longer than the bound.",
         "DESIGN.md section 3 C06"),
     "C02": (
         "PBT against an independent unit engine (differential oracle on physical quantities in cgs) + exhaustive "
@@ -52,26 +53,29 @@ CHECKS = {
         "Generated Arrays/Vectors are converted within and across families; results are compared with the "
         "independent model, the source must be bit-identical afterwards, round trips and chains must agree, "
         "incompatible pairs must raise. The finite catalogue (9 osyris-defined constants x spellings, 45 generator "
-        "units, spelling equivalence sets) is enumerated completely against accepted physical values (1e-3) and "
-        "the frozen table (1e-12).",
-        "Trusted: accepted values written into checks/c08.py (IAU 2015 / CODATA); vlib/unitmodel.py.",
+        "units, every symbol of the independent table, spelling equivalence sets, two pre-existing user configurations in "
+        "a fresh interpreter) is enumerated completely against accepted physical values (masses 1e-3, nominal radii "
+        "and luminosities 1e-6, radiation constant 1e-4).",
+        "Trusted: accepted values written into vlib/unitmodel.py (IAU 2015 / CODATA); within their latitude the model "
+        "adopts the live value of an osyris-defined constant, outside it the frozen one.",
         "DESIGN.md section 3 C08"),
     "C09": (
         "differential PBT (Vector operation vs the same operation on each component Array) + independent numpy/cgs "
         "oracle and algebraic-law metamorphic relations for norm/dot/cross",
         "Generated Vector operations (arithmetic, comparisons, logical, unary, numpy functions, reflected forms; "
         "rhs Vector/Array/number/ndarray/Quantity; 1-3 components) must equal the component-wise lifting bit for "
-        "bit (reflected forms: as physical quantities) or raise together; component-count mismatches must raise "
-        "ValueError. norm/dot/cross are recomputed with numpy on cgs values from the independent unit model and "
+        "bit (reflected forms: as physical quantities) or raise together with the same exception type; component-count "
+        "mismatches must be rejected (operators and numpy functions). norm/dot/cross are recomputed with numpy on cgs values from the independent unit model and "
         "checked against symmetry, antisymmetry, a.(axb)=0 and the Lagrange identity with mixed compatible units.",
         "Trusted: component Array operations (decided by C02/C07/C10) as the lifting reference; vlib/unitmodel.py. "
-        "Known finding: norm of a 1-component Vector is signed.",
+        "Not covered: a Quantity, ndarray or numpy scalar on the left of a Vector.",
         "DESIGN.md section 3 C09"),
     "C10": (
         "catalogue-driven PBT: exhaustive function x unit-assignment x dtype table + generated values/shapes/"
         "keyword forms, oracle = numpy on raw values + unit class from the independent unit engine",
-        "A fixed catalogue of ~95 numpy functions in three unit classes is called on Arrays in positional, axis=, "
-        "keepdims= and out= forms with same / compatible / incompatible / bare operands; values must equal numpy's "
+        "A fixed catalogue of ~100 numpy functions in three unit classes (plus ufunc methods reduce / accumulate / "
+        "outer) is called on Arrays in positional, axis=, keepdims= and out= forms with same / compatible / "
+        "incompatible / bare operands, ndarray or Array conditions, eight dtypes and non-finite values; values must equal numpy's "
         "on raw values (n-ary: as physical quantities), the unit must follow the class, mixed units must be "
         "converted or refused.",
         "Trusted: the class assignment of the catalogue (taken from the property statement); numpy as value "
